@@ -173,6 +173,7 @@ func (l *ltBroadcast) buildPendList() []*pendBlock {
 func (l *ltBroadcast) pendBlockLoop() {
 
 	ticker := time.NewTicker(time.Millisecond * 200)
+	verifLoopTicker(l, "pendBlock", ticker)
 	for {
 		select {
 		case <-l.Ctx.Done():
@@ -186,6 +187,7 @@ func (l *ltBroadcast) pendBlockLoop() {
 					l.pubPeerMsg(pd.fromPeer, blockReqMsgID, &types.ReqInt{Height: pd.block.GetHeight()})
 				}
 			}
+			verifLoopDone(l, "pendBlock")
 		}
 	}
 }
@@ -251,6 +253,7 @@ func (l *ltBroadcast) handleBlockReqList() {
 func (l *ltBroadcast) blockRequestLoop() {
 
 	ticker := time.NewTicker(time.Millisecond * 200)
+	verifLoopTicker(l, "blockReq", ticker)
 	for {
 		select {
 		case <-l.Ctx.Done():
@@ -258,6 +261,7 @@ func (l *ltBroadcast) blockRequestLoop() {
 			return
 		case <-ticker.C:
 			l.handleBlockReqList()
+			verifLoopDone(l, "blockReq")
 		}
 	}
 }
